@@ -182,6 +182,26 @@ def test_driver(case, note):
                 bad.append(("input-evicted", k))
         audit_log.append(bad)
         return np.full(rel.data_shape, float(len(bad)))
+    # a custom dictionary with two entries, one of which carries the name
+    # of an input column: names already in the data are not recomputed, so
+    # the frozen input keeps the caller's array (a function under that name
+    # must never be run against a step's instance)
+    clobbered = keys[len(case["heavy"]) % len(keys)]
+
+    def clobber(rel):
+        if all(k in rel.data for k in keys):
+            audit_log.append([("custom-function-run-under-input-name",
+                               clobbered)])
+        return np.full(rel.data_shape, 123.0)
+
+    def third(rel):
+        bad = []
+        if all(k in rel.data for k in keys):
+            if not any(rel.data[clobbered] is d[clobbered]
+                       for _, d in steps):
+                bad.append(("input-replaced", clobbered))
+            audit_log.append(bad)
+        return np.full(rel.data_shape, float(len(bad)))
     kw = world.kwargs(cache=True)
     kw.pop("verbose", None)
     buf = io.StringIO()
@@ -189,7 +209,9 @@ def test_driver(case, note):
         with contextlib.redirect_stdout(buf), contextlib.redirect_stderr(buf):
             out = aurel.over_time(
                 dict(table), fd,
-                vars=[{"audit": audit}, {"second": second}] + case["after"],
+                vars=[{"audit": audit}, {"second": second},
+                      {"third": third, clobbered: clobber}, {"fourth": third}]
+                + case["after"],
                 estimates=[], verbose=False, **kw)
     except Exception as e:  # noqa: BLE001
         note.fail(f"over_time:raises:{type(e).__name__}",
@@ -200,6 +222,11 @@ def test_driver(case, note):
     for bad in audit_log:
         for what, k in bad:
             note.fail(f"driver:{what}", dict(key=k))
+    for j in range(len(steps)):
+        if clobbered in out and not any(
+                np.array_equal(np.asarray(out[clobbered][j]), d[clobbered],
+                               equal_nan=True) for _, d in steps):
+            note.fail("driver:input-column-changed", dict(key=clobbered))
     # later built-in variables are those of the inputs
     order = list(out["it"])
     for j, i in enumerate(order):
